@@ -184,21 +184,21 @@ fn check_verdict(out: &mut Outcome, src: &str, kind: &str, det: Det, sizes: &[u1
                 out.violate(
                     &format!("pack-stray-line:{}", kind),
                     format!("{} reports lines {:?} where no container begins", det.name(), stray),
-                    json!({"source": src, "detector": det.name(), "observed": lines, "container_line": line}),
+                    json!({"call": "pack-verdict", "source": src, "detector": det.name(), "observed": lines, "line": line, "verdict": verdict}),
                 );
             }
             if verdict == "must" && !reported {
                 out.violate(
                     &format!("pack-missed:{}", kind),
                     format!("{} does not report a {} with member sizes {:?} although both sort directions save a slot", det.name(), kind, sizes),
-                    json!({"source": src, "detector": det.name(), "observed": lines, "expected_line": line, "sizes": sizes}),
+                    json!({"call": "pack-verdict", "source": src, "detector": det.name(), "observed": lines, "line": line, "verdict": verdict, "sizes": sizes}),
                 );
             }
             if verdict == "mustnot" && reported {
                 out.violate(
                     &format!("pack-false:{}", kind),
                     format!("{} reports a {} with member sizes {:?} whose declared order is already optimal", det.name(), kind, sizes),
-                    json!({"source": src, "detector": det.name(), "observed": lines, "sizes": sizes}),
+                    json!({"call": "pack-verdict", "source": src, "detector": det.name(), "observed": lines, "line": line, "verdict": verdict, "sizes": sizes}),
                 );
             }
         }
